@@ -292,7 +292,7 @@ Rec == [scn |-> [kind |-> Kind, persistent |-> B(Persistent), ending |-> Ending,
                  target_started |-> B(started), target_finished |-> B(landedFinished /\ ~landedInTarget)],
         obs |-> [dead_observed |-> "T", term_ret |-> IF nterm > 0 THEN "T" ELSE "na",
                  reads |-> <<Shape(Seen), Shape(Seen), Shape(Seen)>>, fin_done |-> B(findone),
-                 linger |-> "na", restart_from |-> "na", us_alive |-> usAlive, us_end |-> IF UsEnd = usc THEN "last" ELSE IF UsEnd = "other" THEN "other" ELSE "init", setter |-> "rejected",
+                 linger |-> "na", restart_from |-> "na", bystander |-> "na", us_alive |-> usAlive, us_end |-> IF UsEnd = usc THEN "last" ELSE IF UsEnd = "other" THEN "other" ELSE "init", setter |-> "rejected",
                  stream |-> Stream]]
 
 \* known finding F03: a request landing after the work has finished (in the result store/send, the handler, the final
